@@ -27,3 +27,52 @@ def hex (b : List UInt8) : String :=
   String.ofList (b.flatMap fun x => [hexChar (x.toNat / 16), hexChar (x.toNat % 16)])
 
 end Driver
+
+namespace Driver
+
+def hexOf (b : List UInt8) : String :=
+  String.ofList (b.flatMap fun x => [hexChar (x.toNat / 16), hexChar (x.toNat % 16)])
+
+def unhexPlain (s : String) : List UInt8 :=
+  let rec go : List Char → List UInt8
+    | a :: b :: rest => UInt8.ofNat (hexDigit a * 16 + hexDigit b) :: go rest
+    | _ => []
+  go s.toList
+
+/-- length of the maximal run of `x` at the head of the list -/
+def runLen (x : UInt8) : List UInt8 → Nat
+  | y :: ys => if y = x then runLen x ys + 1 else 0
+  | [] => 0
+
+/-- canonical `hx` notation (see harness/src/util.rs): runs of ≥ 8 equal bytes become `~n*hh`. -/
+partial def hxSegs (b : List UInt8) (plain : List UInt8) (acc : Array String) : Array String :=
+  match b with
+  | [] => if plain.isEmpty then acc else acc.push (hexOf plain.reverse)
+  | x :: _ =>
+    let n := runLen x b
+    if n ≥ 8 then
+      let acc := if plain.isEmpty then acc else acc.push (hexOf plain.reverse)
+      hxSegs (b.drop n) [] (acc.push s!"~{n}*{hexOf [x]}")
+    else
+      hxSegs (b.drop n) ((b.take n).reverse ++ plain) acc
+
+def hx (b : List UInt8) : String :=
+  if b.isEmpty then "-" else "+".intercalate (hxSegs b [] #[]).toList
+
+def unhx (s : String) : List UInt8 :=
+  if s = "-" then [] else
+  (s.splitOn "+").flatMap fun seg =>
+    if seg.startsWith "~" then
+      match (seg.drop 1).toString.splitOn "*" with
+      | [n, h] => List.replicate (nat! n) ((unhexPlain h).headD 0)
+      | _ => []
+    else unhexPlain seg
+
+/-- lexicographic order on byte strings (the harness sorts header keys by their bytes) -/
+def bytesLt : List UInt8 → List UInt8 → Bool
+  | [], [] => false
+  | [], _ => true
+  | _, [] => false
+  | a :: as, b :: bs => if a < b then true else if b < a then false else bytesLt as bs
+
+end Driver
